@@ -21,10 +21,10 @@ func (b *Bool) CompareAndSwap(o, n bool) bool {
 
 type Int32 struct{ v atomic.Int32 }
 
-func (b *Int32) Load() int32         { vsched.Point("atomic.load"); return b.v.Load() }
-func (b *Int32) Store(x int32)       { vsched.Point("atomic.store"); b.v.Store(x) }
-func (b *Int32) Add(x int32) int32   { vsched.Point("atomic.add"); return b.v.Add(x) }
-func (b *Int32) Swap(x int32) int32  { vsched.Point("atomic.swap"); return b.v.Swap(x) }
+func (b *Int32) Load() int32        { vsched.Point("atomic.load"); return b.v.Load() }
+func (b *Int32) Store(x int32)      { vsched.Point("atomic.store"); b.v.Store(x) }
+func (b *Int32) Add(x int32) int32  { vsched.Point("atomic.add"); return b.v.Add(x) }
+func (b *Int32) Swap(x int32) int32 { vsched.Point("atomic.swap"); return b.v.Swap(x) }
 func (b *Int32) CompareAndSwap(o, n int32) bool {
 	vsched.Point("atomic.cas")
 	return b.v.CompareAndSwap(o, n)
@@ -32,10 +32,10 @@ func (b *Int32) CompareAndSwap(o, n int32) bool {
 
 type Int64 struct{ v atomic.Int64 }
 
-func (b *Int64) Load() int64         { vsched.Point("atomic.load"); return b.v.Load() }
-func (b *Int64) Store(x int64)       { vsched.Point("atomic.store"); b.v.Store(x) }
-func (b *Int64) Add(x int64) int64   { vsched.Point("atomic.add"); return b.v.Add(x) }
-func (b *Int64) Swap(x int64) int64  { vsched.Point("atomic.swap"); return b.v.Swap(x) }
+func (b *Int64) Load() int64        { vsched.Point("atomic.load"); return b.v.Load() }
+func (b *Int64) Store(x int64)      { vsched.Point("atomic.store"); b.v.Store(x) }
+func (b *Int64) Add(x int64) int64  { vsched.Point("atomic.add"); return b.v.Add(x) }
+func (b *Int64) Swap(x int64) int64 { vsched.Point("atomic.swap"); return b.v.Swap(x) }
 func (b *Int64) CompareAndSwap(o, n int64) bool {
 	vsched.Point("atomic.cas")
 	return b.v.CompareAndSwap(o, n)
@@ -65,8 +65,8 @@ func (b *Uint64) CompareAndSwap(o, n uint64) bool {
 
 type Value struct{ v atomic.Value }
 
-func (b *Value) Load() any     { vsched.Point("atomic.load"); return b.v.Load() }
-func (b *Value) Store(x any)   { vsched.Point("atomic.store"); b.v.Store(x) }
+func (b *Value) Load() any      { vsched.Point("atomic.load"); return b.v.Load() }
+func (b *Value) Store(x any)    { vsched.Point("atomic.store"); b.v.Store(x) }
 func (b *Value) Swap(x any) any { vsched.Point("atomic.swap"); return b.v.Swap(x) }
 func (b *Value) CompareAndSwap(o, n any) bool {
 	vsched.Point("atomic.cas")
@@ -75,26 +75,26 @@ func (b *Value) CompareAndSwap(o, n any) bool {
 
 type Pointer[T any] struct{ v atomic.Pointer[T] }
 
-func (b *Pointer[T]) Load() *T        { vsched.Point("atomic.load"); return b.v.Load() }
-func (b *Pointer[T]) Store(x *T)      { vsched.Point("atomic.store"); b.v.Store(x) }
-func (b *Pointer[T]) Swap(x *T) *T    { vsched.Point("atomic.swap"); return b.v.Swap(x) }
+func (b *Pointer[T]) Load() *T     { vsched.Point("atomic.load"); return b.v.Load() }
+func (b *Pointer[T]) Store(x *T)   { vsched.Point("atomic.store"); b.v.Store(x) }
+func (b *Pointer[T]) Swap(x *T) *T { vsched.Point("atomic.swap"); return b.v.Swap(x) }
 func (b *Pointer[T]) CompareAndSwap(o, n *T) bool {
 	vsched.Point("atomic.cas")
 	return b.v.CompareAndSwap(o, n)
 }
 
-func AddInt32(p *int32, d int32) int32    { vsched.Point("atomic.add"); return atomic.AddInt32(p, d) }
-func AddInt64(p *int64, d int64) int64    { vsched.Point("atomic.add"); return atomic.AddInt64(p, d) }
+func AddInt32(p *int32, d int32) int32     { vsched.Point("atomic.add"); return atomic.AddInt32(p, d) }
+func AddInt64(p *int64, d int64) int64     { vsched.Point("atomic.add"); return atomic.AddInt64(p, d) }
 func AddUint32(p *uint32, d uint32) uint32 { vsched.Point("atomic.add"); return atomic.AddUint32(p, d) }
 func AddUint64(p *uint64, d uint64) uint64 { vsched.Point("atomic.add"); return atomic.AddUint64(p, d) }
-func LoadInt32(p *int32) int32            { vsched.Point("atomic.load"); return atomic.LoadInt32(p) }
-func LoadInt64(p *int64) int64            { vsched.Point("atomic.load"); return atomic.LoadInt64(p) }
-func LoadUint32(p *uint32) uint32         { vsched.Point("atomic.load"); return atomic.LoadUint32(p) }
-func LoadUint64(p *uint64) uint64         { vsched.Point("atomic.load"); return atomic.LoadUint64(p) }
-func StoreInt32(p *int32, v int32)        { vsched.Point("atomic.store"); atomic.StoreInt32(p, v) }
-func StoreInt64(p *int64, v int64)        { vsched.Point("atomic.store"); atomic.StoreInt64(p, v) }
-func StoreUint32(p *uint32, v uint32)     { vsched.Point("atomic.store"); atomic.StoreUint32(p, v) }
-func StoreUint64(p *uint64, v uint64)     { vsched.Point("atomic.store"); atomic.StoreUint64(p, v) }
+func LoadInt32(p *int32) int32             { vsched.Point("atomic.load"); return atomic.LoadInt32(p) }
+func LoadInt64(p *int64) int64             { vsched.Point("atomic.load"); return atomic.LoadInt64(p) }
+func LoadUint32(p *uint32) uint32          { vsched.Point("atomic.load"); return atomic.LoadUint32(p) }
+func LoadUint64(p *uint64) uint64          { vsched.Point("atomic.load"); return atomic.LoadUint64(p) }
+func StoreInt32(p *int32, v int32)         { vsched.Point("atomic.store"); atomic.StoreInt32(p, v) }
+func StoreInt64(p *int64, v int64)         { vsched.Point("atomic.store"); atomic.StoreInt64(p, v) }
+func StoreUint32(p *uint32, v uint32)      { vsched.Point("atomic.store"); atomic.StoreUint32(p, v) }
+func StoreUint64(p *uint64, v uint64)      { vsched.Point("atomic.store"); atomic.StoreUint64(p, v) }
 func CompareAndSwapInt32(p *int32, o, n int32) bool {
 	vsched.Point("atomic.cas")
 	return atomic.CompareAndSwapInt32(p, o, n)
